@@ -58,7 +58,7 @@ def retire_or_rearm(ctx, db):
             # split into iterations of the main loop: consecutive branches on controller::operator bool
             idx = []
             for i, it in enumerate(tr):
-                if it.k == 'branch' and it.term in ('WhileStmt', 'ForStmt', 'IfStmt', 'DoStmt'):
+                if it.k == 'branch' and it.term in ('WhileStmt', 'ForStmt', 'IfStmt', 'DoStmt', 'BinaryOperator'):
                     ce = cond_event(tr, i)
                     if ce is not None and 'generator_aggregator_controller::operator bool' in norm(ce.get('callee') or ''):
                         idx.append((i, it.val))
